@@ -377,3 +377,36 @@ class Session:
             for n, p, suffix in self.violations:
                 print("UNCONFIRMED-REFUTATION %s (engine self-check failed; see %s)" % (n, p))
         return code
+
+
+class SubSession:
+    """a view of a session that registers only some obligations of another property's obligation list (under this property's name): used where a property's
+    lemmas ASSUME a contract that another property's check discharges on the same anchored file -- the assumption is then discharged here as well"""
+
+    def __init__(self, parent, rename, keep):
+        self.__dict__["_p"], self.__dict__["_rename"], self.__dict__["_keep"] = parent, rename, keep
+
+    def __getattr__(self, name):
+        return getattr(self._p, name)
+
+    def __setattr__(self, name, value):
+        if name in ("min_obligations", "required_names"):
+            return
+        setattr(self._p, name, value)
+
+    def oblige(self, name, fn, functions=(), kind="deductive", fallback=None):
+        if not self._keep(name):
+            return Result("skipped", "", "")
+        return self._p.oblige(self._rename(name), fn, functions, kind, fallback)
+
+    def canary(self, name, fn):
+        return Result("skipped", "", "")
+
+    def crosscheck(self, *a, **k):
+        return None
+
+    def bounded_standin(self, *a, **k):
+        return None
+
+    def undecided_part(self, *a):
+        return None
